@@ -10,9 +10,10 @@
    1. what the model computes, in pure terms, and its exact error taxonomy   (`sigma_eq`, `sigma_missing_node`)
    2. symmetry on every mixed graph, cyclic or not                            (`sigma_symm`)
    3. adjacency on every mixed graph                                          (`sigma_adjacent`, `sigma_endpoint_conditioned`)
-   4. agreement with m-separation / d-separation on acyclic graphs            (section 4: see the OPEN block)
+   4. agreement with m-separation / d-separation on acyclic graphs            (`sigma_iff_mseparated`, `sigma_iff_dsep_canonical`,
+                                                                               `sigma_agrees_with_dsep`)
 -/
-import Y0.Lemmas.SigmaPure
+import Y0.Lemmas.SigmaAgree
 import Y0.Props.C04
 
 namespace Y0.MG
@@ -135,6 +136,50 @@ theorem sigma_endpoint_conditioned (G : MG α) (hG : G.WF) (a b : α) (C : List 
     rcases h with h | h <;> simp [pOpen, h1, h2, h]
   simp [this]
 
+/-! ## 4. agreement with d-separation on acyclic graphs -/
+
+/-- a Z-σ-open simple path is found exactly when an m-connecting path exists (acyclic graphs) -/
+theorem sigma_open_iff_mconn (G : MG α) (hG : G.WF) (hA : G.Acyclic) (a b : α) (C : List α) (ha : a ∈ G.nodes)
+    (hab : a ≠ b) : (G.sigmaPaths a b).any (G.pOpen C) = true ↔ G.MConnPath a b C := by
+  have ha' : a ∈ G.disorient.nodes := (mem_nodes_disorient G hG a).2 ha
+  rw [List.any_eq_true]
+  constructor
+  · rintro ⟨p, hp, hopen⟩
+    obtain ⟨haC, hbC, μ, hw⟩ := mwalk_of_open_path G hG hA C a b ha p ((mem_sigmaPaths G a b ha' p).1 hp) hopen
+    exact mconnPath_of_mconnWalk G C a b hab ((mconnWalk_iff_mwalk G C a b hab).2 ⟨haC, hbC, μ, hw⟩)
+  · intro h
+    obtain ⟨p, hp, hopen⟩ := open_path_of_mconnPath G hG C a b h
+    exact ⟨p, (mem_sigmaPaths G a b ha' p).2 hp, hopen⟩
+
+/-- **Agreement, main clause.**  On every acyclic directed mixed graph, for all distinct nodes `a`, `b` (conditioned
+on or not) the sigma-separation test says "separated" exactly when there is no m-connecting path … -/
+theorem sigma_iff_mseparated (G : MG α) (hG : G.WF) (hA : G.Acyclic) (a b : α) (C : List α) (ha : a ∈ G.nodes)
+    (hb : b ∈ G.nodes) (hab : a ≠ b) (s : Bool) (hs : G.sigmaSeparated a b C = .ok s) :
+    s = true ↔ ¬ G.MConnPath a b C := by
+  rw [sigma_eq G hG a b C ha hb] at hs
+  cases hs
+  rw [← sigma_open_iff_mconn G hG hA a b C ha hab]
+  simp
+
+/-- … i.e. exactly when `a` and `b` are d-separated given `C` in the canonical DAG (true d-separation) -/
+theorem sigma_iff_dsep_canonical (G : MG α) (hG : G.WF) (hA : G.Acyclic) (a b : α) (C : List α) (ha : a ∈ G.nodes)
+    (hb : b ∈ G.nodes) (hab : a ≠ b) (s : Bool) (hs : G.sigmaSeparated a b C = .ok s) :
+    s = true ↔ ¬ G.DConnCanonical a b C := by
+  rw [sigma_iff_mseparated G hG hA a b C ha hb hab s hs, mconn_iff_dconn_canonical G a b C hab]
+
+/-- the two tests of y0 return the same verdict on every query in the property's quantifier -/
+theorem sigma_agrees_with_dsep (G : MG α) (hG : G.WF) (hA : G.Acyclic) (a b : α) (C : List α)
+    (hq : G.ValidQuery a b C) (hab : a ≠ b) (haC : a ∉ C) (hbC : b ∉ C) :
+    G.sigmaSeparated a b C = G.dSeparated a b C := by
+  obtain ⟨s', hs'⟩ := dsep_total G hG a b C hq haC hbC
+  have hs := sigma_eq G hG a b C hq.1 hq.2.1
+  rw [hs, hs']
+  congr 1
+  have h1 := sigma_iff_mseparated G hG hA a b C hq.1 hq.2.1 hab _ hs
+  have h2 := dsep_iff_mseparated G hG a b C hq hab haC hbC s' hs'
+  have : (!(G.sigmaPaths a b).any (G.pOpen C)) = true ↔ s' = true := by rw [h1, h2]
+  cases hx : (!(G.sigmaPaths a b).any (G.pOpen C)) <;> cases s' <;> simp_all
+
 /-! ## non-vacuity -/
 
 /-- a cyclic graph with a parallel pair and a self-loop: `0 → 1 → 2 → 0`, `3 → 0`, `2 ↔ 3`, `1 → 1` -/
@@ -149,5 +194,25 @@ example : sigmaExample.sigmaSeparated 3 1 [0] = sigmaExample.sigmaSeparated 1 3 
 example : (fromEdges [] [(1, 0), (0, 2)] [(0, 2)] : MG Nat).sigmaSeparated 1 2 [] = .ok false := by decide
 example : (fromEdges [] [(1, 0), (2, 0), (0, 3), (3, 4)] [] : MG Nat).sigmaSeparated 1 2 [4] = .ok false := by decide
 example : (fromEdges [] [(1, 0), (2, 0), (0, 3), (3, 4)] [] : MG Nat).sigmaSeparated 1 2 [] = .ok true := by decide
+
+/-- a graph whose directed edges all increase some rank is acyclic (used to exhibit graphs satisfying `Acyclic`) -/
+theorem acyclic_of_rank (G : MG α) (r : α → Nat) (h : ∀ u v, G.DiEdge u v → r u < r v) : G.Acyclic := by
+  have key : ∀ u v, TransGen G.DiEdge u v → r u < r v := by
+    intro u v huv
+    induction huv with
+    | single h' => exact h _ _ h'
+    | tail _ h' ih => exact Nat.lt_trans ih (h _ _ h')
+  intro v hv
+  exact Nat.lt_irrefl _ (key v v hv)
+
+/-- the hypotheses of the agreement theorems are satisfiable: the F9a witness is a well-formed acyclic graph -/
+example : (fromEdges [] [(1, 0), (0, 2)] [(0, 2)] : MG Nat).Acyclic := by
+  apply acyclic_of_rank _ (fun v => if v = 1 then 0 else if v = 0 then 1 else 2)
+  intro u v h
+  have h' : (u, v) ∈ [(1, 0), (0, 2)] := by
+    have : (fromEdges [] [(1, 0), (0, 2)] [(0, 2)] : MG Nat).di = [(1, 0), (0, 2)] := by decide
+    rw [DiEdge, this] at h; exact h
+  simp only [List.mem_cons, Prod.mk.injEq, List.not_mem_nil, or_false] at h'
+  rcases h' with ⟨rfl, rfl⟩ | ⟨rfl, rfl⟩ <;> simp
 
 end Y0.MG
